@@ -3,9 +3,9 @@ them first, whatever the seed.  They cover the boundary classes a maintainer's s
 
   lines      of exactly 64, 65, 8191, 8192, 8193, 131071, 131072 bytes (newline included) and one over,
              followed by more output, fed at once / around the boundary / byte-wise (small ones)
-  growth     a line that fills the buffer exactly to, one short of and one beyond every capacity of
+  growth     a line that fills the buffer exactly to, one short of and one beyond the capacities of
              cbuf.c's growth sequence for the constants of the code under test (`pdshmodel relay growth`:
-             quick = first 4 and last 4 capacities, thorough = all), followed by more output in the same
+             quick = first 3 and last 3 capacities, thorough = first 4, last 4 and every 4th between), followed by more output in the same
              read; and, when the side condition `growthOk` is false, the stream that loses bytes
   tails      unterminated final fragment of 1, 8190, 8191, 8192, 8193, 16382, 16383, 16384 bytes, alone and after
              lines, on stdout and stderr
@@ -89,7 +89,7 @@ def growth_cases(growth, quick):
     """growth = parsed `pdshmodel relay growth <meta>` line"""
     out = []
     path = growth.get("path", [])
-    caps = path if not quick else sorted(set(path[:3] + path[-3:]))
+    caps = sorted(set(path[:4] + path[4:-4:4] + path[-4:])) if not quick else sorted(set(path[:3] + path[-3:]))
     mx = growth.get("max", relay.MAXLINE)
     for s in caps:
         last = s in caps[-1:]
